@@ -23,9 +23,9 @@
 #include <string.h>
 #include "vf.h"
 #include <dbus/dbus-timeout.h>
-struct DBusTimeout { int id; int enabled; DBusTimeoutHandler handler; void *data; };
+struct DBusTimeout { int id; int enabled; DBusTimeoutHandler handler; void *data; int interval; };
 struct DBusTimeoutList { int n_added; };
-struct DBusHashTable { dbus_uint32_t key[2]; void *val[2]; int used[2]; };
+struct DBusHashTable { uintptr_t key[2]; void *val[2]; int used[2]; };
 struct DBusObjectTree { int x; };
 struct DBusTransport { int connected; };
 struct DBusCounter { int x; };
@@ -39,9 +39,12 @@ struct DBusCounter { int x; };
 #ifndef PRE
 #define PRE 4
 #endif
+#ifndef TMO
+#define TMO 25000
+#endif
 /* ---- messages: real DBusMessage objects (dbus-connection.c includes the private header) with a ghost side table ---- */
 #define NMSG 8
-static DBusMessage mobj[NMSG]; static struct { int type; dbus_uint32_t serial, reply_serial; int refs; } gm[NMSG]; static int n_mobj;
+static DBusMessage mobj[NMSG]; static struct { int type; dbus_uint32_t serial, reply_serial; int refs; int errkind; /* 1 NoReply (prepared timeout error), 2 Disconnected (generated in the blocking wait) */ } gm[NMSG]; static int n_mobj;
 static int midx (const DBusMessage *m) { int i; for (i = 0; i < NMSG; i++) if (m == &mobj[i]) return i; VF_ASSERT (0, "unknown message object"); return 0; }
 static DBusMessage *mnew (int type, dbus_uint32_t serial, dbus_uint32_t reply_serial) { VF_ASSERT (n_mobj < NMSG, "message pool"); gm[n_mobj].type = type; gm[n_mobj].serial = serial; gm[n_mobj].reply_serial = reply_serial; gm[n_mobj].refs = 1; return &mobj[n_mobj++]; }
 int dbus_message_get_type (DBusMessage *m) { return gm[midx (m)].type; }
@@ -56,7 +59,16 @@ dbus_bool_t dbus_message_is_method_call (DBusMessage *m, const char *i, const ch
 dbus_bool_t dbus_message_has_interface (DBusMessage *m, const char *i) { return 0; }
 DBusMessage *dbus_message_ref (DBusMessage *m) { gm[midx (m)].refs++; return m; }
 void dbus_message_unref (DBusMessage *m) { VF_ASSERT (gm[midx (m)].refs > 0, "message over-unref"); gm[midx (m)].refs--; }
-DBusMessage *dbus_message_new_error (DBusMessage *reply_to, const char *name, const char *text) { return mnew (DBUS_MESSAGE_TYPE_ERROR, 0, gm[midx (reply_to)].serial); }
+DBusMessage *dbus_message_new_error (DBusMessage *reply_to, const char *name, const char *text) { DBusMessage *m = mnew (DBUS_MESSAGE_TYPE_ERROR, 0, gm[midx (reply_to)].serial); gm[midx (m)].errkind = 1; return m; }
+/* generate_local_error_message (blocking wait) */
+DBusMessage *dbus_message_new (int type) { return mnew (type, 0, 0); }
+dbus_bool_t dbus_message_set_error_name (DBusMessage *m, const char *n) { gm[midx (m)].errkind = strcmp (n, DBUS_ERROR_DISCONNECTED) == 0 ? 2 : 3; return 1; }
+void dbus_message_set_no_reply (DBusMessage *m, dbus_bool_t v) { }
+dbus_bool_t dbus_message_set_reply_serial (DBusMessage *m, dbus_uint32_t r) { gm[midx (m)].reply_serial = r; return 1; }
+void dbus_message_iter_init_append (DBusMessage *m, DBusMessageIter *it) { }
+dbus_bool_t dbus_message_iter_append_basic (DBusMessageIter *it, int type, const void *v) { return 1; }
+int dbus_timeout_get_interval (DBusTimeout *t) { return t->interval; }
+dbus_bool_t _dbus_condvar_wait_timeout (DBusCondVar *c, DBusCMutex *m, int ms) { return 1; }
 const char *dbus_message_type_to_string (int t) { return "t"; }
 /* ---- ghost lock ---- */
 static int lock_held, lock_errors;
@@ -69,17 +81,26 @@ void _dbus_condvar_wake_one (DBusCondVar *c) { }
 dbus_int32_t _dbus_atomic_inc (DBusAtomic *a) { return a->value++; }
 static DBusConnection conn;
 dbus_int32_t _dbus_atomic_dec (DBusAtomic *a)
-{ /* the application keeps its own reference to the connection throughout: finalisation (_dbus_connection_last_unref) is outside the model, and that it is not reached is an obligation */
-  if (a == &conn.refcount) { VF_ASSERT (a->value > 1, "the connection is not finalised while the application holds its reference"); a->value--; return 2; /* constant "not the last reference": cuts the finaliser syntactically */ }
-  return a->value--; }
+{ /* The application keeps its own reference to the connection and to every pending call throughout, so no reference count in the model
+   * may drop to zero: that is an obligation here, and the function returns the CONSTANT "not the last reference", which keeps symex out of
+   * the finalisers (_dbus_connection_last_unref, _dbus_pending_call_last_unref) whatever it can or cannot fold about the counter. */
+  VF_ASSERT (a->value > 1, "no object is finalised while the application holds its reference");
+  a->value--; return 2; }
 dbus_int32_t _dbus_atomic_get (DBusAtomic *a) { return a->value; }
 /* ---- int-keyed hash: 2-slot model calling the registered value-free function, as DBusHashTable does ---- */
-static int hfind (DBusHashTable *h, dbus_uint32_t k) { int i; for (i = 0; i < 2; i++) if (h->used[i] && h->key[i] == k) return i; return -1; }
-void *_dbus_hash_table_lookup_int (DBusHashTable *h, int key) { int i = hfind (h, (dbus_uint32_t) key); return i < 0 ? 0 : h->val[i]; }
-dbus_bool_t _dbus_hash_table_insert_int (DBusHashTable *h, int key, void *v)
-{ int i = hfind (h, (dbus_uint32_t) key); if (i < 0) { i = h->used[0] ? 1 : 0; VF_ASSERT (!h->used[i], "hash model capacity"); } h->key[i] = (dbus_uint32_t) key; h->val[i] = v; h->used[i] = 1; return 1; }
-dbus_bool_t _dbus_hash_table_remove_int (DBusHashTable *h, int key)
-{ int i = hfind (h, (dbus_uint32_t) key); void *v; if (i < 0) return 0; v = h->val[i]; h->used[i] = 0; free_pending_call_on_hash_removal (v); return 1; }
+/* keys are stored as the real table stores them: the _int API converts with _DBUS_INT_TO_POINTER (sign extension), the _uintptr API
+ * takes the value as is; a caller mixing a signed and an unsigned view of a serial >= 2^31 therefore misses, as in the real table */
+static int hfindp (DBusHashTable *h, uintptr_t k) { int i; for (i = 0; i < 2; i++) if (h->used[i] && h->key[i] == k) return i; return -1; }
+static int hfind (DBusHashTable *h, dbus_uint32_t k) { int a = hfindp (h, (uintptr_t) (intptr_t) (int) k); return a >= 0 ? a : hfindp (h, (uintptr_t) k); }
+static dbus_bool_t hins (DBusHashTable *h, uintptr_t k, void *v)
+{ int i = hfindp (h, k); if (i < 0) { i = h->used[0] ? 1 : 0; VF_ASSERT (!h->used[i], "hash model capacity"); } h->key[i] = k; h->val[i] = v; h->used[i] = 1; return 1; }
+static dbus_bool_t hrem (DBusHashTable *h, uintptr_t k) { int i = hfindp (h, k); void *v; if (i < 0) return 0; v = h->val[i]; h->used[i] = 0; free_pending_call_on_hash_removal (v); return 1; }
+void *_dbus_hash_table_lookup_int (DBusHashTable *h, int key) { int i = hfindp (h, (uintptr_t) (intptr_t) key); return i < 0 ? 0 : h->val[i]; }
+dbus_bool_t _dbus_hash_table_insert_int (DBusHashTable *h, int key, void *v) { return hins (h, (uintptr_t) (intptr_t) key, v); }
+dbus_bool_t _dbus_hash_table_remove_int (DBusHashTable *h, int key) { return hrem (h, (uintptr_t) (intptr_t) key); }
+void *_dbus_hash_table_lookup_uintptr (DBusHashTable *h, uintptr_t key) { int i = hfindp (h, key); return i < 0 ? 0 : h->val[i]; }
+dbus_bool_t _dbus_hash_table_insert_uintptr (DBusHashTable *h, uintptr_t key, void *v) { return hins (h, key, v); }
+dbus_bool_t _dbus_hash_table_remove_uintptr (DBusHashTable *h, uintptr_t key) { return hrem (h, key); }
 int _dbus_hash_table_get_n_entries (DBusHashTable *h) { return h->used[0] + h->used[1]; }
 void _dbus_hash_iter_init (DBusHashTable *h, DBusHashIter *it) { it->dummy1 = h; it->dummy5 = -1; }
 dbus_bool_t _dbus_hash_iter_next (DBusHashIter *it) { DBusHashTable *h = it->dummy1; int i; for (i = it->dummy5 + 1; i < 2; i++) if (h->used[i]) { it->dummy5 = i; return 1; } it->dummy5 = 2; return 0; }
@@ -87,13 +108,14 @@ void *_dbus_hash_iter_get_value (DBusHashIter *it) { DBusHashTable *h = it->dumm
 void _dbus_hash_iter_remove_entry (DBusHashIter *it) { DBusHashTable *h = it->dummy1; void *v = h->val[it->dummy5]; h->used[it->dummy5] = 0; free_pending_call_on_hash_removal (v); }
 /* ---- timeouts ---- */
 static struct DBusTimeout tmo[NCALLS]; static int n_tmo;
-DBusTimeout *_dbus_timeout_new (int interval, DBusTimeoutHandler h, void *d, DBusFreeFunction f) { VF_ASSERT (n_tmo < NCALLS, "timeout pool"); tmo[n_tmo].id = n_tmo; tmo[n_tmo].handler = h; tmo[n_tmo].data = d; return &tmo[n_tmo++]; }
+DBusTimeout *_dbus_timeout_new (int interval, DBusTimeoutHandler h, void *d, DBusFreeFunction f) { VF_ASSERT (n_tmo < NCALLS, "timeout pool"); tmo[n_tmo].id = n_tmo; tmo[n_tmo].interval = interval; tmo[n_tmo].handler = h; tmo[n_tmo].data = d; return &tmo[n_tmo++]; }
 void _dbus_timeout_unref (DBusTimeout *t) { }
 dbus_bool_t _dbus_timeout_list_add_timeout (DBusTimeoutList *l, DBusTimeout *t) { t->enabled = 1; l->n_added++; return 1; }
 void _dbus_timeout_list_remove_timeout (DBusTimeoutList *l, DBusTimeout *t) { VF_ASSERT (t->enabled, "a timeout is removed only while installed"); t->enabled = 0; l->n_added--; }
 void _dbus_timeout_list_toggle_timeout (DBusTimeoutList *l, DBusTimeout *t, dbus_bool_t e) { }
 /* ---- misc environment ---- */
-static void *slot_data[NCALLS]; static DBusPendingCall *calls[NCALLS];
+static void *slot_data[NCALLS]; DBusPendingCall *vf_calls[NCALLS];
+#define calls vf_calls
 static int call_index (DBusPendingCall *p) { int i; for (i = 0; i < NCALLS; i++) if (calls[i] == p) return i; return -1; }
 void _dbus_data_slot_list_init (DBusDataSlotList *l) { }
 void _dbus_data_slot_list_free (DBusDataSlotList *l) { }
@@ -118,7 +140,7 @@ void _dbus_counter_adjust_unix_fd (DBusCounter *c, long d) { }
 void _dbus_message_remove_counter (DBusMessage *m, DBusCounter *c) { }
 dbus_bool_t dbus_message_is_signal_local_disconnected_dummy;
 /* ---- notifications ---- */
-static int completions[NCALLS], completed_with_serial[NCALLS], completed_is_error[NCALLS];
+static int completions[NCALLS], completed_with_serial[NCALLS], completed_is_error[NCALLS], completed_errkind[NCALLS];
 static void notify (DBusPendingCall *p, void *ud)
 {
   int i = call_index (p); DBusMessage *r;
@@ -128,10 +150,35 @@ static void notify (DBusPendingCall *p, void *ud)
   r = p->reply;
   completed_with_serial[i] = r ? (int) gm[midx (r)].reply_serial : -1;
   completed_is_error[i] = r ? (gm[midx (r)].type == DBUS_MESSAGE_TYPE_ERROR) : 0;
+  completed_errkind[i] = r ? gm[midx (r)].errkind : 0;
 }
 int _dbus_current_generation = 1; static struct DBusHashTable ht; static struct DBusTimeoutList tl; static struct DBusTransport tr = { 1 }; static struct DBusObjectTree ot;
 static DBusMessage *reqs[NCALLS]; static dbus_uint32_t serials[NCALLS]; static int cancelled[NCALLS];
 
+#ifdef WITH_BLOCK
+/* ---- environment of the blocking wait: a ghost clock and a ghost peer acting inside each transport iteration ---- */
+static long now_ms, start_ms = -1, last_ms; static int iters, reply_queued, closed_by_peer;
+void _dbus_get_monotonic_time (long *sec, long *usec)
+{ now_ms += vf_range (0, 40000); if (start_ms < 0) start_ms = now_ms; last_ms = now_ms;
+  if (iters >= (int) sizeof (SCRIPT) - 1 + 1 && TMO != DBUS_TIMEOUT_INFINITE) VF_ASSUME (now_ms - start_ms >= TMO);   /* bound: one silent iteration after the script the finite timeout has run out */
+  *sec = now_ms / 1000; *usec = (now_ms % 1000) * 1000; }
+static void queue_msg (int type, dbus_uint32_t rs)
+{ DBusMessage *m = mnew (type, 90 + (dbus_uint32_t) iters, rs); DBusList *l = calloc (1, sizeof (DBusList)); VF_ASSUME (l != 0); l->data = m; l->next = l->prev = l; _dbus_connection_queue_received_message_link (&conn, l); }
+/* the peer's behaviour is a CONCRETE script (job shape), one letter per transport iteration: N nothing, S unrelated signal, R the reply, C close;
+ * after the script the peer stays silent.  The clock stays symbolic. */
+#ifndef SCRIPT
+#define SCRIPT "R"
+#endif
+void _dbus_transport_do_iteration (DBusTransport *t, unsigned int flags, int timeout_ms)
+{
+  char what = iters < (int) sizeof (SCRIPT) - 1 ? SCRIPT[iters] : 'N';
+  VF_ASSERT (conn.have_connection_lock && conn.io_path_acquired, "the transport is iterated with the lock and the I/O path held");
+  iters++;
+  if (what == 'R' && t->connected) { queue_msg (vf_bool () ? DBUS_MESSAGE_TYPE_METHOD_RETURN : DBUS_MESSAGE_TYPE_ERROR, serials[0]); reply_queued = 1; }
+  else if (what == 'C') { t->connected = 0; closed_by_peer = 1; }
+  else if (what == 'S' && t->connected) queue_msg (DBUS_MESSAGE_TYPE_SIGNAL, 0);
+}
+#endif
 static void lock (void) { _dbus_rmutex_lock ((DBusRMutex *) 1); conn.have_connection_lock = 1; }
 static void event (int step)
 {
@@ -219,7 +266,7 @@ void harness (void)
 {
   int i, j;
   conn.refcount.value = 1; conn.generation = 1; conn.mutex = (DBusRMutex *) 1; conn.slot_mutex = (DBusRMutex *) 2; conn.pending_replies = &ht; conn.timeouts = &tl; conn.transport = &tr; conn.objects = &ot;
-#ifdef WITH_CLOSE
+#if defined (WITH_CLOSE) || defined (WITH_BLOCK)
   conn.client_serial = 41;                      /* close jobs: concrete serials keep the table model's slot choice constant (serial arithmetic is the two_events jobs' subject) */
 #else
   conn.client_serial = vf_u32 (); VF_ASSUME (conn.client_serial != 0);
@@ -232,12 +279,32 @@ void harness (void)
       VF_ASSERT (serials[i] != 0, "serials are non-zero");
       for (j = 0; j < i; j++) VF_ASSERT (serials[j] != serials[i], "consecutive serials are distinct");
       reqs[i] = mnew (DBUS_MESSAGE_TYPE_METHOD_CALL, serials[i], 0);
-      calls[i] = _dbus_pending_call_new_unlocked (&conn, 25000, reply_handler_timeout); VF_ASSUME (calls[i] != 0);
+      calls[i] = _dbus_pending_call_new_unlocked (&conn, TMO, reply_handler_timeout); VF_ASSUME (calls[i] != 0);
       ok = _dbus_pending_call_set_timeout_error_unlocked (calls[i], reqs[i], serials[i]); VF_ASSUME (ok);
       ok = _dbus_connection_attach_pending_call_unlocked (&conn, calls[i]); VF_ASSUME (ok);
       _dbus_connection_unlock (&conn);
       ok = dbus_pending_call_set_notify (calls[i], notify, 0, 0); VF_ASSUME (ok);
     }
+#ifdef WITH_BLOCK
+  {
+    /* a connected connection always still owns its pre-allocated Disconnected message (_dbus_connection_new_for_transport) */
+    { DBusList *dl = calloc (1, sizeof (DBusList)); VF_ASSUME (dl != 0); dl->data = mnew (DBUS_MESSAGE_TYPE_SIGNAL, 0, 0); dl->next = dl->prev = dl; conn.disconnect_message_link = dl; }
+    _dbus_connection_block_pending_call (calls[0]);
+    VF_ASSERT (!lock_held && lock_errors == 0 && !conn.io_path_acquired, "lock and I/O path released when the wait returns");
+    VF_ASSERT (completions[0] == 1 && dbus_pending_call_get_completed (calls[0]), "the blocking wait returns only with the call completed, exactly once");
+    VF_ASSERT (completed_with_serial[0] == (int) serials[0], "by a message carrying the call's serial");
+    VF_ASSERT (hfind (&ht, serials[0]) < 0 && (TMO == DBUS_TIMEOUT_INFINITE || !tmo[0].enabled), "and detached");
+    if (reply_queued) VF_ASSERT (completed_errkind[0] == 0, "a reply that arrived during the wait is what completes the call");
+    if (completed_errkind[0] == 1 && !closed_by_peer)
+      VF_ASSERT (TMO != DBUS_TIMEOUT_INFINITE && last_ms - start_ms >= TMO, "a local NoReply while connected means the call's finite timeout has elapsed (never for an infinite timeout)");
+    if (completed_errkind[0] == 2) VF_ASSERT (closed_by_peer, "a local Disconnected error only if the connection closed");
+    if (closed_by_peer && !reply_queued) VF_ASSERT (completed_errkind[0] == 1 || completed_errkind[0] == 2, "a close without a reply completes the call with a locally generated error");
+    if (reply_queued) VF_WITNESS_OPT ("blocking wait completed by the reply");
+    if (completed_errkind[0] == 1 && !closed_by_peer) VF_WITNESS_OPT ("blocking wait timed out");
+    if (completed_errkind[0] == 2) VF_WITNESS_OPT ("blocking wait ended by Disconnected");
+    VF_WITNESS ("end of harness reached");
+  }
+#else
   event (0);
   for (i = 0; i < NCALLS; i++) VF_ASSERT (completions[i] <= 1, "no call completes twice (after one event)");
   event (1);
@@ -251,4 +318,5 @@ void harness (void)
   if (completions[0] == 1 && NCALLS > 1 && completions[1] == 1) VF_WITNESS_OPT ("both calls completed");
   if (completions[0] == 1 && completed_is_error[0]) VF_WITNESS_OPT ("completed by an error (timeout or error reply)");
   VF_WITNESS ("end of harness reached");
+#endif
 }
